@@ -281,7 +281,7 @@ class MailboxWorld:
     explored={kinds}, coarse={client indexes whose up/down run eagerly},
     welcome={...}, reorder=int, dup=int, acks=bool, initial_fail=bool"""
 
-    KINDS = ("nconn_ok", "nconn_fail", "ndeliver", "nclose", "nlose", "down", "up", "api", "raw", "turn", "connect", "stopfin", "reorder", "dup", "srverr", "drop", "hsfail", "connfail")
+    KINDS = ("nconn_ok", "nconn_fail", "ndeliver", "nclose", "nlose", "ntimer", "down", "up", "api", "raw", "turn", "connect", "stopfin", "reorder", "dup", "srverr", "drop", "hsfail", "connfail")
 
     def __init__(self, cfg, seed=0):
         self.cfg = cfg
@@ -309,6 +309,7 @@ class MailboxWorld:
             self.net = Net()
             ipaddrs.find_addresses = lambda: [PEER_HOSTS[int(CTX.client[1:])] if (CTX.client or "").startswith("c") else "127.0.0.1"]
         self.nlose_left = cfg.get("nlose", 0)
+        self.ntimer_left = cfg.get("ntimers", 0)
         CTX.world = self
         CTX.client = "srv"
         db = create_channel_db(":memory:")
@@ -456,6 +457,11 @@ class MailboxWorld:
                 for side in (0, 1):
                     if not link.ends[side].transport.closed and not link.broken:
                         evs.append(("nlose", link.idx, side))
+        if self.ntimer_left > 0:
+            # time passes for one client: its earliest pending timer (ping monitor, relay delay, ...) becomes due and fires
+            for c in self.clients:
+                if c.clock.calls and c.clock.calls[0].getTime() > c.clock.seconds():
+                    evs.append(("ntimer", c.ci))
         if self.hsfail_left > 0:
             # a reconnection attempt whose TCP connection succeeds but whose WebSocket negotiation fails:
             # Autobahn delivers onClose without onOpen; ClientService will simply try again
@@ -528,7 +534,7 @@ class MailboxWorld:
     def _closure(self):
         n = 0
         while True:
-            evs = [e for e in self._all_enabled() if self._is_eager(e) and e[0] not in ("drop", "dup", "reorder", "connfail", "srverr", "nlose", "hsfail")]
+            evs = [e for e in self._all_enabled() if self._is_eager(e) and e[0] not in ("drop", "dup", "reorder", "connfail", "srverr", "nlose", "hsfail", "ntimer")]
             if not evs:
                 break
             self._do(evs[0])
@@ -574,6 +580,15 @@ class MailboxWorld:
                 call.func(*call.args, **call.kw)
             except Exception as e:   # Twisted's reactor would log this
                 self.errors.append((type(e).__name__, str(e)[:160], "delayedcall"))
+        elif kind == "ntimer":
+            self.ntimer_left -= 1
+            call = c.clock.calls.pop(0)
+            c.clock.rightNow = max(c.clock.rightNow, call.getTime())
+            call.called = 1
+            try:
+                call.func(*call.args, **call.kw)
+            except Exception as e:   # Twisted's reactor would log this
+                self.errors.append((type(e).__name__, str(e)[:160], "delayedcall:%s" % getattr(call.func, "__qualname__", "?")))
         elif kind == "connect":
             self._connect(c)
         elif kind == "stopfin":
@@ -878,7 +893,7 @@ class MailboxWorld:
                 links.append((tuple(b"".join(q) for q in link.queues), link.broken,
                               tuple((e.transport.closed, e.transport.disconnecting, e.owner) for e in link.ends)))
             netimg = (tuple(links), tuple((a.reactor.name, a.host, a.port, a.state) for a in self.net.attempts),
-                      tuple(sorted((h, p, port.listening) for (h, p), port in self.net.listeners.items())), self.nlose_left)
+                      tuple(sorted((h, p, port.listening) for (h, p), port in self.net.listeners.items())), self.nlose_left, self.ntimer_left)
         return (netimg, tuple(parts), tuple((a.pc, a.mailbox, a.errors) for a in self.raw), im.img(srv), self.reorder_left, self.dup_left, self.srverr_left, self.hsfail_left,
                 tuple(self.errors), tuple(self.escaped), tuple(self.server_errors),
                 im.img(self.cfg.get("extra_state")(self)) if self.cfg.get("extra_state") else None)
